@@ -124,6 +124,40 @@ def derive(rnd: random.Random, logs: dict[str, list[tuple[str, str]]], name: str
     return rows, ops
 
 
+def role_swapped(rnd: random.Random, rows: list[tuple[str, str]], per_kind: int, kinds_step: int = 1) -> list[tuple]:
+    """"Packets valid for other systems or device classes": after the history has established its system, every
+    known I / RP verb|code once more - with payloads drawn from the library's own regex for it - but sent by the
+    devices of *this* history (its controller first), self-addressed and addressed to the gateway.  Each is
+    observed at once (views only), before a later packet of the same code replaces it."""
+    from harness import gen
+
+    srcs: list[str] = []
+    for r in rows:
+        a = r[1][7:16]
+        if a[:2] not in ("18", "63", "--") and a not in srcs:
+            srcs.append(a)
+    srcs.sort(key=lambda a: (a[:2] != "01", a))
+    srcs = srcs[:3]
+    if not srcs:
+        return list(rows)
+    ts = rows[-1][0]
+    out: list[tuple] = list(rows)
+    pay = gen.schema_payloads(rnd, 2)
+    kinds = sorted(k for k in pay if k[1] in (" I", "RP"))[::kinds_step]
+    for (code, verb) in kinds:
+        members = pay[(code, verb)]
+        rnd.shuffle(members)
+        for m in members[:per_kind]:
+            dev = srcs[0] if rnd.random() < 0.6 else rnd.choice(srcs)
+            if verb == " I":
+                fr = gen.make_frame(verb, dev, "--:------", dev, code, m)
+            else:
+                fr = gen.make_frame(verb, dev, "18:000730", "--:------", code, m)
+            if accepted(fr):
+                out.append((ts, fr, "obs"))
+    return out
+
+
 # --------------------------------------------------------------------------------------
 # the observation harness
 
@@ -158,8 +192,10 @@ class Recorder:
         self.detail.append(detail)
 
 
-async def observe(gwy: Any, tr: Any, rec: Recorder, state: dict, verbose: bool = False, nodisc: int = 1) -> bool:
-    """One observation point.  Returns False if the engine is no longer running (stop the history)."""
+async def observe(gwy: Any, tr: Any, rec: Recorder, state: dict, verbose: bool = False, nodisc: int = 1,
+                  light: bool = False) -> bool:
+    """One observation point.  Returns False if the engine is no longer running (stop the history).
+    light: the public views only (after a single role-swapped packet, before the next one replaces it)."""
     from ramses_tx import Command, Priority
 
     await vloop.drain()
@@ -180,6 +216,8 @@ async def observe(gwy: Any, tr: Any, rec: Recorder, state: dict, verbose: bool =
                     print(f"    view {cls}.{name} of {getattr(obj, 'id', '')} raised {res}: {str(err)[:120]}")
             rec.add("view", f"{cls}.{name}", res, detail=str(getattr(obj, "id", "")))
     await vloop.drain()
+    if light:
+        return True
     # 2. snapshot + restore, with and without expired packets
     ok = True
     if not nodisc:
@@ -356,7 +394,8 @@ async def run_history(rows: list[tuple[str, str]], eav: int, k: int, verbose: bo
     base_ts = None
     stopped = False
     try:
-        for i, (ts, frame) in enumerate(rows):
+        for i, row in enumerate(rows):
+            ts, frame = row[0], row[1]
             try:
                 t = _dt.datetime.fromisoformat(ts)
             except ValueError:
@@ -383,6 +422,10 @@ async def run_history(rows: list[tuple[str, str]], eav: int, k: int, verbose: bo
                 m = d._msgs_.get(code)
                 if m is not None and m.dtm == fakes.VDT.now():
                     state["known"] = (src, code, frame)
+            if len(row) > 2 and row[2] == "obs":    # a role-swapped packet: look at once, views only
+                if verbose:
+                    print(f"  after role-swapped packet {i + 1}: {frame}")
+                await observe(gwy, tr, rec, state, verbose, nodisc, light=True)
             if (i + 1) % k == 0:
                 if verbose:
                     print(f"  after packet {i + 1}: {frame}")
@@ -392,7 +435,17 @@ async def run_history(rows: list[tuple[str, str]], eav: int, k: int, verbose: bo
         if not stopped:
             if verbose:
                 print(f"  at the end ({len(rows)} packets)")
-            await observe(gwy, tr, rec, state, verbose, nodisc)
+            ok = await observe(gwy, tr, rec, state, verbose, nodisc)
+            # ... and again after the traffic has stopped for a while (45 min, 3 h more, a day more): what the gateway
+            # holds has then partly / wholly expired - every view, the snapshot and the probes must still answer
+            for quiet in (2700.0, 10800.0, 86400.0):
+                if not ok:
+                    break
+                loop._vt += quiet
+                await vloop.drain()
+                if verbose:
+                    print(f"  after {quiet / 3600:.2f} h of silence")
+                ok = await observe(gwy, tr, rec, state, verbose, nodisc)
         n_loop_exc = len(loop.exc) - exc0
     finally:
         try:
